@@ -303,6 +303,14 @@ def scenarios(pid, tier, seed):
             if rng.random() < 0.4:
                 tree = dyn_gen.S("outer", [dict(tree, name="in", pure=False), dyn_gen.J("side", 1, h=9)], pure=rng.random() < 0.5)
             out.append(("busy-loop", dict(tree=tree, busy=True)))
+        # ... and independent busy jobs behind a window: each round reports a completion, nothing is started as a
+        # successor (the next job gets the slot that was freed), and the deadline goes by meanwhile
+        for w in (1, 2):
+            for n in (4, 6):
+                for T in (1, 2):
+                    for pure, crit in ((True, False), (False, True), (False, False)):
+                        kids = [dyn_gen.J("b%d" % k, 0, busy=1, h=k) for k in range(n)]
+                        out.append(("busy-window", dict(tree=dyn_gen.S("top", kids, T=T, w=w, pure=pure, crit=crit), busy=True)))
     if pid in ("C11", "C13"):
         # the top-level run cancelled from outside at some instant (wait_for, task.cancel)
         for sc in dyn_gen.targeted(pid, rng, n_t // 6) + [dyn_gen.gen_tree(rng, depth=rng.choice([1, 2, 2])) for _ in range(n_r // 8)]:
@@ -381,6 +389,7 @@ def run(pid, tier, seed, res, drv, replay=None, replay_path=None):
     dyn_replay.replay_all(pid, all_traces, res, drv)
     if pid == "C10":
         dyn_replay.flat_ties(all_traces, res, drv)
+        dyn_replay.timing_ties(all_traces, res, drv)
     # violations: shrink, smallest first
     for key, (c, sc) in first_by_key.items():
         small = shrink(pid, sc, key) if not replay else sc
